@@ -1067,6 +1067,18 @@ class ToRx:
             raise BodyError('literal pattern')
         if k == 'pctor':
             name = rx_strip(p[1])
+            # `Units::$unit(_)`: the constructor is named by a metavariable of the repetition — one constructor per
+            # instance.  Encoded as the enum's constructor family applied to the *name* of the instance's variant:
+            # a value `Units::meter(..)` is `ctor1 <Units::$> (str "meter")`, the pattern matches when the instance's
+            # `$unit` is that name (the payload, a unit-like struct, carries no data and must be ignored by the pattern)
+            segs = [x.strip() for x in name.split('::')]
+            if segs[-1].startswith('$') and '$' not in '::'.join(segs[:-1]):
+                if len(p[2]) == 1 and p[2][0][0] == 'pwild':
+                    return '(.ctor1 %d (.metaVar %d))' % (self.n.code('c', '::'.join(segs[:-1]) + '::$'),
+                                                           self.n.code('meta', segs[-1][1:]))
+                raise BodyError('metavariable constructor pattern with a payload pattern')
+            if '$' in name:
+                raise BodyError('metavariable in a constructor pattern')
             if len(p[2]) == 0:
                 return '(.ctor0 %d)' % self.n.code('c', name)
             if len(p[2]) == 1:
